@@ -76,8 +76,7 @@ class GlobalOp(IRDLOperation):
             printer.print_string(" ")
         if self.is_mutable:
             printer.print_string("mutable ")
-        printer.print_string("@")
-        printer.print_string(self.sym_name.data)
+        printer.print_symbol_name(self.sym_name.data)
         if self.value:
             printer.print_string("(")
             printer.print_attribute(self.value)
